@@ -37,8 +37,9 @@ class Work:
         disps = {}
         acts = self.acts
         sim.mark()
+        base_us, base_dt = sim.now, sim.utcnow()  # absolute due times are taken from one base instant: identical due times occur
         for a in sc["actions"]:
-            rec = acts[a["id"]] = {"id": a["id"], "due": sim.now + a["ms"] * 1000, "start_t": None, "start": None, "thread": None, "cancel_ret_t": None, "runs": 0}
+            rec = acts[a["id"]] = {"id": a["id"], "due": (base_us if a["how"] == "abs" else sim.now) + a["ms"] * 1000, "start_t": None, "start": None, "thread": None, "cancel_ret_t": None, "runs": 0}
 
             def action(sch, st=None, rec=rec):
                 rec["runs"] += 1
@@ -51,7 +52,7 @@ class Work:
             if a["how"] == "rel":
                 disps[a["id"]] = s.schedule_relative(a["ms"] / 1000.0, action)
             elif a["how"] == "abs":
-                disps[a["id"]] = s.schedule_absolute(sim.utcnow() + timedelta(milliseconds=a["ms"]), action)
+                disps[a["id"]] = s.schedule_absolute(base_dt + timedelta(milliseconds=a["ms"]), action)
             else:
                 rec["due"] = sim.now
                 disps[a["id"]] = s.schedule(action)
@@ -92,7 +93,7 @@ class Prop:
         if rng.random() < 0.1:
             return {"kind": "immediate", "delays": [rng.choice([None, 0, 0, 1, 5]) for _ in range(rng.randrange(1, 4))], "sched": {"seed": rng.getrandbits(32), "k": 0}}
         n = rng.randrange(1, 5)
-        acts = [{"id": i, "how": rng.choice(["rel", "rel", "abs", "imm"]), "ms": rng.choice([0, 1, 5, 10, 20, 50])} for i in range(n)]
+        acts = [{"id": i, "how": rng.choice(["rel", "abs", "abs", "imm"]), "ms": rng.choice([0, 1, 5, 10, 10, 20, 50])} for i in range(n)]
         cancels = [{"id": rng.randrange(n), "after_ms": rng.choice([0, 1, 2, 4, 5, 9, 10, 19, 30])} for _ in range(rng.randrange(0, 4))]
         return {"kind": rng.choice(KINDS), "actions": acts, "cancels": cancels, "sched": th.gen_sched(rng, spurious_p=0.3, drift_p=0.4)}
 
